@@ -69,8 +69,9 @@ def o52(ctx):
     exp = {}
     for c in COORD:
         s = mk("add", sym(c), sym("shift_" + c))
-        exp[c] = T("floor", mk("add", s, const(0.5)))  # round half up
-        exp["shift_" + c] = mk("sub", s, exp[c])
+        # the property asks for an integer within 0.5 of the complete position; which way a tie goes is the code's choice
+        exp[c] = Rel(s, tm.nearest_integer, "an integer within 0.5 of")
+        exp["shift_" + c] = mk("sub", s, df.cols[c]) if c in df.cols else s
     # special inputs: all shifts exactly zero with fractional stored positions (lists converted from other packages, or scaled by 0.5),
     # one shift zero, negative positions
     rng_ = np.random.default_rng(tm.SEED + 52)
@@ -190,6 +191,12 @@ def o56(ctx):
                     continue
                 cond, new, old = parts
                 each = [n for n in tm.walk(cond) if n.op == "call" and n.args[0] == "each"]
+                after_loop = tm.has_call(cond, "last") or any(n.op == "call" and str(n.args[0]).startswith("loopvar:") for n in tm.walk(cond))
+                if not each and not after_loop:
+                    # not a loop over the tomograms of the table at all (e.g. a keyed lookup with map/isin): this rule only
+                    # knows the loop idiom, so it has no verdict
+                    raise Unsupported(f"{label}: per-tomogram update of column {cname!r} is not a loop over the dimension table's "
+                                      f"tomograms (selector {tm.show(cond)[:80]})", last_store(it, df, cname) or fn)
                 ok = (cond.op == "eq" and len(each) == 1 and not tm.has_call(cond, "last")
                       and tm.equivalent(cond, mk("eq", sym("tomo_id"), each[0]), seed_tag="fm" + cname))
                 if not ok:
